@@ -63,6 +63,12 @@ CLAIMED["C12"] = dict(
    technique="Lean 4 proof over a model bridged to a source-regenerated definition + hook-recorded exact comparison + wall-clock measurement",
    design="§6 C12")
 
+CLAIMED["C11"] = dict(
+   text="Lean 4 theorems about SignalProto (any number of stopping / waking threads, every interleaving of flag accesses, notify, entering and leaving the wait; run and block_on) from a 22-clause inductive invariant: stopped_only_if_requested, stop_then_next_check_exits (at most the iteration in progress finishes), stop_wakeup_wait_returns (stop then wakeup never leaves the loop blocked), wakeup_makes_wait_return + only_wait_return_consumes_wakeup (a wake-up issued before the loop blocks is not lost), block_on_polls_initially, block_on_wake_not_lost, block_on_wake_keeps_flag, swap_polls, block_on_result (Some iff the future completed, None iff stop first). The real run()/block_on() are executed under controlled thread schedules with yield points at every flag access and around the poller wait (a blocked loop thread is recognised through its kernel state) and compared step by step with the model.",
+   note="Trusted: Lean kernel + standard axioms; Poller::notify by its documented contract (sticky flag); SeqCst-like atomics; yield-point hooks + scheduler harness; schedules sampled. 'Promptly' is not timed (the wait returning is what is checked/proved). Liveness as safety: wake-obligation invariants + enabledness, no fairness axiom.",
+   technique="Lean 4 inductive invariant over an unbounded-thread LTS + schedule-controlled correspondence with the real crate",
+   design="§6 C11")
+
 PENDING_REASON = "not claimed yet in this revision: model and theorems are being built (see DESIGN.md §12 build order); no check is registered rather than registering an unsound one"
 
 def main():
